@@ -160,6 +160,13 @@ func newPadOf(s string) (padding.Padder, bool) {
 	return nil, false
 }
 
+// Descriptions are free text of the spec author; the library interpolates them into error texts
+// and Describe. They carry what a format string would trip over.
+const (
+	descPrim = "f 100% (%d) %s"
+	descComp = "c rate (%) %w %v"
+)
+
 var sorts = map[string]moovsort.StringSlice{"str": moovsort.Strings, "int": moovsort.StringsByInt, "hex": moovsort.StringsByHex}
 
 // FieldOfTree builds a real field (with its spec) from the tree form.
@@ -177,7 +184,7 @@ func FieldOfTree(t *Tree) (field.Field, bool) {
 		if err != nil || !ok1 || pref == nil || !ok2 {
 			return nil, false
 		}
-		spec := &field.Spec{Length: length, Description: "f", Enc: enc, Pref: pref, Pad: pad}
+		spec := &field.Spec{Length: length, Description: descPrim, Enc: enc, Pref: pref, Pad: pad}
 		if a[5] == "t2" {
 			spec.Packer = field.Track2Packer{}
 			spec.Unpacker = field.Track2Unpacker{}
@@ -202,7 +209,7 @@ func FieldOfTree(t *Tree) (field.Field, bool) {
 		if err != nil || pref == nil {
 			return nil, false
 		}
-		spec := &field.Spec{Length: length, Description: "c", Pref: pref, Subfields: map[string]field.Field{}}
+		spec := &field.Spec{Length: length, Description: descComp, Pref: pref, Subfields: map[string]field.Field{}}
 		mode := t.Kids[2]
 		switch mode.Name {
 		case "t":
